@@ -563,6 +563,16 @@ impl<P: Payload> InitState<P> {
         }
     }
 
+    fn algorithm_rank(algo: &'static Algorithm) -> u8 {
+        if algo == &AES_128_GCM {
+            3
+        } else if algo == &AES_256_GCM {
+            2
+        } else {
+            1
+        }
+    }
+
     fn select_algorithm(&self, peer_algos: &Algorithms) -> Result<Option<(&'static Algorithm, f32)>, Error> {
         if self.algorithms.allow_unencrypted && peer_algos.allow_unencrypted {
             return Ok(None);
@@ -581,7 +591,16 @@ impl<P: Payload> InitState<P> {
                     .find(|(a2, _)| a1 == a2)
                     .map(|(_, s2)| (*a1, if s1 < s2 { *s1 } else { *s2 }))
             })
-            .max_by(|(_, s1), (_, s2)| if s1 < s2 { cmp::Ordering::Less } else { cmp::Ordering::Greater });
+            .max_by(|(a1, s1), (a2, s2)| {
+                // Both peers must pick the same algorithm: ties are broken by the algorithm itself, not by list order
+                if s1 < s2 {
+                    cmp::Ordering::Less
+                } else if s1 > s2 {
+                    cmp::Ordering::Greater
+                } else {
+                    Self::algorithm_rank(a1).cmp(&Self::algorithm_rank(a2))
+                }
+            });
         if let Some(algo) = algo {
             debug!("Init: best algorithm is {:?} with speed {}", algo.0, algo.1);
             Ok(Some(algo))
